@@ -701,6 +701,12 @@ class DicomStack(object):
 
                 #Check the order
                 try:
+                    #Two files with the same sort value and slice position
+                    #can not be ordered (the equivalent of an image collision
+                    #when the order is given explicitly)
+                    if len(set(info[1] for info in self._files_info)) != n_files:
+                        raise InvalidStackError("Duplicate sort value and "
+                                                "slice position")
                     self._chk_order(slice_positions,
                                     files_per_vol,
                                     num_volumes,
